@@ -297,6 +297,18 @@ def nextIdxValues (t : Tape) (idx : Nat) : R Nat :=
 /-- fuel for the plain index loops: on a well-formed tape every iteration moves forward -/
 def loopFuel (t : Tape) : Nat := t.size + 2
 
+/-- `match tokens[key_ind + 1] { Operator(_) => key_ind + 2, _ => key_ind + 1 }` -/
+def valueIndOf (tk : TTok) (ti : Nat) : Nat :=
+  match tk with
+  | .op _ => ti + 2
+  | _ => ti + 1
+
+/-- the operator part of the same match (dom.rs:506) -/
+def opOf (tk : TTok) : Option Op :=
+  match tk with
+  | .op o => some o
+  | _ => none
+
 /-- dom.rs:50 `fields_len` -/
 def fieldsLenF (t : Tape) : Nat → Nat → Nat → R Nat
   | 0, _, _ => .error .hang
@@ -304,18 +316,18 @@ def fieldsLenF (t : Tape) : Nat → Nat → Nat → R Nat
     if ind < e then
       match t[ind]? with
       | none => .error .panic
-      | some .mixed => .ok 0
-      | some _ =>
-        match t[ind + 1]? with
-        | none => .error .panic
-        | some tk =>
-          let valueInd := match tk with | .op _ => ind + 2 | _ => ind + 1
-          match nextIdx t valueInd with
-          | .error f => .error f
-          | .ok n =>
-            match fieldsLenF t fuel n e with
+      | some tok =>
+        if tok = .mixed then .ok 0
+        else
+          match t[ind + 1]? with
+          | none => .error .panic
+          | some tk =>
+            match nextIdx t (valueIndOf tk ind) with
             | .error f => .error f
-            | .ok c => .ok (c + 1)
+            | .ok n =>
+              match fieldsLenF t fuel n e with
+              | .error f => .error f
+              | .ok c => .ok (c + 1)
     else .ok 0
 
 def fieldsLen (t : Tape) (s e : Nat) : R Nat := fieldsLenF t (loopFuel t) s e
@@ -329,6 +341,11 @@ structure FieldE where
   valIdx : Nat
   deriving DecidableEq, Repr
 
+/-- the tokens `FieldsIter::next` accepts as a key (dom.rs:485-488) -/
+def isKeyTok : TTok → Bool
+  | .quoted _ | .unquoted _ | .param _ | .undefParam _ => true
+  | _ => false
+
 /-- dom.rs:477 `FieldsIter::next` from state `token_ind = ti`; returns the item and the new
 `token_ind`.  A key that is not a scalar hits `debug_assert!(false, "All keys should be
 scalars")`, which is active in the verification build (a release build returns `None`). -/
@@ -337,23 +354,16 @@ def fieldsNext (t : Tape) (ti e : Nat) : R (Option (FieldE × Nat)) :=
   else
     match t[ti]? with
     | none => .error .panic
-    | some .mixed => .ok none
     | some tok =>
-      let isKey : Bool := match tok with
-        | .quoted _ | .unquoted _ | .param _ | .undefParam _ => true
-        | _ => false
-      if !isKey then .error .panic
+      if tok = .mixed then .ok none
+      else if !isKeyTok tok then .error .panic
       else
         match t[ti + 1]? with
         | none => .error .panic
-        | some (.op o) =>
-          match nextIdx t (ti + 2) with
+        | some tk =>
+          match nextIdx t (valueIndOf tk ti) with
           | .error f => .error f
-          | .ok n => .ok (some (⟨tok, ti, some o, ti + 2⟩, n))
-        | some _ =>
-          match nextIdx t (ti + 1) with
-          | .error f => .error f
-          | .ok n => .ok (some (⟨tok, ti, none, ti + 1⟩, n))
+          | .ok n => .ok (some (⟨tok, ti, opOf tk, valueIndOf tk ti⟩, n))
 
 /-- all items of `reader.fields()` and the final `token_ind` (what `remainder` looks at) -/
 def fieldsAllF (t : Tape) : Nat → Nat → Nat → R (List FieldE × Nat)
